@@ -78,7 +78,7 @@ func encodings(slots []int32) []string {
 	return out
 }
 
-var malformed = []string{"", "[", "[1,", `[1,"a"]`, "[1.5]", "{}", "[null]", "1", "[3000000000]", "[-3000000000]", `"[1]"`, "null", "[]", "[1,2]x", "true", "[1e0]", "[01]", "[ 2 ]"}
+var malformed = []string{"", "[", "[1,", `[1,"a"]`, "[1.5]", "{}", "[null]", "1", "[3000000000]", "[-3000000000]", `"[1]"`, "null", "[]", "[1,2]x", "true", "[1e0]", "[01]", "[ 2 ]", `["2"]`, `[[1]]`, `[2, 4294967297]`, `[1,"x",2]`, `{"0":1}`, `[null,1]`}
 
 func c01Inputs(thorough bool, f func(c01Input)) {
 	maxR, maxSlots := int32(6), 4
@@ -382,7 +382,7 @@ func init() {
 	register("c01", "desired ordinals: helpers and controller vs reference (bounded-exhaustive inputs)", func([]string) int {
 		thorough := explore.Tier() == "thorough"
 		rep := explore.NewReport("C01", "model_checking")
-		rep.Rule = "bounded-exhaustive inputs: replicas 0..6 (thorough 0..8) x {annotation absent, nil annotation map, 18 malformed/edge values, every subset of {-2..8} with <=4 (thorough <=5) members and int32-extreme sets, each in canonical/permuted/duplicated/whitespace encodings}; every helper compared with the reference model (first r non-negative integers not listed); the real controller run on an empty cluster under Parallel (one reconcile) and OrderedReady (reconcile/kubelet loop to quiescence) for every input with distinct slot sets; plus edit journeys on the real controller: replicas 0..3, slots s1 then s2 over all pairs of subsets of {0..3} with <=2 members (s2 may remove the annotation), with and without a template edit, both policies, each phase run to quiescence, the edit delivered as an update event through the real set handler (which must enqueue the set although an annotation-only edit leaves metadata.generation alone): the pods must end at exactly desired(r, s2); and sets that own a healthy pod named <set>-(2^32+k), which is no member, must still create ordinal k. Non-trivial = the annotation denotes at least one slot."
+		rep.Rule = "bounded-exhaustive inputs: replicas 0..6 (thorough 0..8) x {annotation absent, nil annotation map, 24 malformed/edge values, every subset of {-2..8} with <=4 (thorough <=5) members and int32-extreme sets, each in canonical/permuted/duplicated/whitespace encodings}; every helper compared with the reference model (first r non-negative integers not listed); the real controller run on an empty cluster under Parallel (one reconcile) and OrderedReady (reconcile/kubelet loop to quiescence) for every input with distinct slot sets; plus edit journeys on the real controller: replicas 0..3, slots s1 then s2 over all pairs of subsets of {0..3} with <=2 members (s2 may remove the annotation), with and without a template edit, both policies, each phase run to quiescence, the edit delivered as an update event through the real set handler (which must enqueue the set although an annotation-only edit leaves metadata.generation alone): the pods must end at exactly desired(r, s2); and sets that own a healthy pod named <set>-(2^32+k), which is no member, must still create ordinal k. Non-trivial = the annotation denotes at least one slot."
 		rep.Assumptions = []string{"for values that are not a JSON list of int32 the reference reads 'no slots' (the annotation codec's own contract)", "replicas near MaxInt32 are out of bound (the reconciler allocates a slice of that length)"}
 		var inputs []c01Input
 		c01Inputs(thorough, func(in c01Input) { inputs = append(inputs, in) })
